@@ -812,6 +812,50 @@ pub fn gen_c08(thorough: bool, seed: u64) -> Vec<Episode> {
             eps.push(Episode { n, tys: tys_for(n), ops });
         }
     }
+    eps.extend(iter_programs(thorough, &mut r));
+    eps
+}
+
+/// Programs on the iterator object itself: nth (which skip / step_by are built on), count, last, size_hint
+pub fn iter_programs(thorough: bool, r: &mut rand::rngs::StdRng) -> Vec<Episode> {
+    let mut eps = Vec::new();
+    let prog = |n: usize, ks: Vec<usize>, tail: &str| json!({"op": "iter_prog", "n": n, "ks": ks, "tail": tail});
+    for n in 0..=4usize {
+        let t = 1usize << (1usize << n); // number of functions
+        let mut ops = Vec::new();
+        for tail in ["count", "last", "hint", "none"] {
+            ops.push(prog(n, vec![], tail));
+            ops.push(prog(n, vec![0, 0, 0], tail));
+            for k in [t - 2, t - 1, t, t + 1, 2 * t, 2 * t + 3] {
+                ops.push(prog(n, vec![k], tail));
+                ops.push(prog(n, vec![k, 0, 0], tail));
+            }
+            ops.push(prog(n, vec![t / 2, t / 2 - 1, 0], tail));
+            ops.push(prog(n, vec![t / 2, t / 2, 0], tail));
+        }
+        // step_by(s): nth(0), then nth(s - 1) until the end and beyond
+        for s in if n <= 3 { vec![2usize, 3, 5, 7] } else { vec![4099, 30000] } {
+            let m = t / s + 3;
+            let mut ks = vec![0];
+            ks.extend(std::iter::repeat(s - 1).take(m));
+            ops.push(prog(n, ks, "count"));
+        }
+        for _ in 0..(if thorough { 40 } else { 8 }) {
+            let ks: Vec<usize> = (0..r.gen_range(1..5)).map(|_| r.gen_range(0..=t / 2)).collect();
+            ops.push(prog(n, ks, ["count", "last", "hint", "none"][r.gen_range(0..4)]));
+        }
+        eps.push(Episode { n, tys: "both", ops });
+    }
+    for n in 5..=8usize {
+        let mut ops = vec![prog(n, vec![5, 0, 100], "hint"), prog(n, vec![0, 63, 0, 64, 1000], "none")];
+        if n == 5 {
+            ops.push(prog(n, vec![1 << 20, 0, 3], "hint"));
+            if thorough {
+                ops.push(prog(n, vec![1 << 24, (1 << 24) - 1], "none"));
+            }
+        }
+        eps.push(Episode { n, tys: "both", ops });
+    }
     eps
 }
 
@@ -1307,6 +1351,8 @@ pub fn gen_c02(thorough: bool, seed: u64) -> Vec<Episode> {
             }
         }
     }
+    // the iterator driven through nth (skip / step_by), count, last: every table it hands out
+    eps.extend(iter_programs(thorough, &mut r));
     eps
 }
 
@@ -1533,6 +1579,7 @@ pub fn gen_c10a(thorough: bool, seed: u64) -> Vec<Episode> {
         ops.push(json!({"op": "vnext", "a": 0}));
         eps.push(Episode { n, tys: "both", ops });
     }
+    eps.extend(iter_programs(thorough, &mut r));
     eps
 }
 
@@ -1701,7 +1748,7 @@ pub fn gen_canon(thorough: bool, seed: u64, c05: bool) -> Vec<Episode> {
                 _ => (scale(0, 1), scale(1, 3), scale(12, 120)),
             }
         };
-        for (kind, cnt) in [("npn", c_npn), ("p", c_p), ("n", c_n)] {
+        for (kind, cnt) in [("n", c_n), ("npn", c_npn), ("p", c_p)] {
             for k in 0..cnt {
                 let f = match k % 8 {
                     0 => random_on(n, &mut r),
@@ -1742,6 +1789,38 @@ pub fn gen_canon(thorough: bool, seed: u64, c05: bool) -> Vec<Episode> {
                 };
                 let heavy = kind == "npn" && n >= 6;
                 eps.push(canon_episode(n, &f, &[kind], c05 || !heavy, c05 || (k % 8 == 0 && n <= 5)));
+            }
+        }
+    }
+    // NPN / P at n = 7, 8 on mux-shaped tables x_top ? h : g with h symmetric (constant, majority, parity, a random
+    // count mask) and g arbitrary: one half of the table is invariant under input exchanges that change the other
+    // half, so a walk that decides from part of the table whether a step "changed anything" goes wrong here.
+    // The exact minimum is out of reach at these sizes; the specification checks the two-step orbit neighbourhood.
+    if !c05 {
+        for n in [8usize, 7] {
+            let cnt = if thorough { if n == 7 { 40 } else { 400 } } else if n == 7 { 40 } else { 96 };
+            for k in 0..cnt {
+                let g = random_on(n - 1, &mut r);
+                let c: u64 = match k % 4 {
+                    0 | 1 if k % 8 < 6 => 0,
+                    1 => (0..n as u64).filter(|p| 2 * p >= n as u64 - 1).fold(0, |m, p| m | (1 << p)),
+                    2 => 0xaaaa_aaaa_aaaa_aaaa,
+                    _ => r.gen(),
+                };
+                let h_on_top = k % 8 < 4;
+                // the selecting variable is the top one, or (one time in four) any other
+                let sel = if k % 16 >= 12 { r.gen_range(0..n) } else { n - 1 };
+                let f = on_from_fn(n, |x| {
+                    let low = (x & ((1 << sel) - 1)) | ((x >> (sel + 1)) << sel);
+                    let top = (x >> sel) & 1 == 1;
+                    if top == h_on_top { (c >> popcount(low)) & 1 == 1 } else { g.binary_search(&low).is_ok() }
+                });
+                let kind = if k % 5 == 4 { "p" } else { "npn" };
+                let mut e = canon_episode(n, &f, &[kind], false, false);
+                if k % 8 >= 2 {
+                    e.tys = "lut"; // the kernel is shared: most of these on one type only
+                }
+                eps.push(e);
             }
         }
     }
